@@ -123,7 +123,7 @@ func replayModel(pkgPath, fn string, mdl map[string]interface{}, tier string, ra
 	mj, _ := json.Marshal(map[string]interface{}{"model": mdl})
 	mPath := filepath.Join(tmp, "model.json")
 	os.WriteFile(mPath, mj, 0o644)
-	args := []string{"test", "-count=1", "-vet=off", "-overlay", ovPath, "-run", "^TestVerifReplay$", "-v"}
+	args := []string{"test", "-count=1", "-vet=off", "-overlay", ovPath, "-run", "^TestVerifReplay$", "-v", "-timeout", replayDeadline}
 	if race {
 		args = append(args, "-race")
 	}
@@ -152,10 +152,20 @@ func replayModel(pkgPath, fn string, mdl map[string]interface{}, tier string, ra
 		return "assume-violated", out
 	case strings.Contains(out, "VERIF-ASSERT-FAILED"):
 		// nested helpers re-panic with a more specific message: the outermost (last) one counts
-		ms := regexp.MustCompile(`VERIF-ASSERT-FAILED: (.*?)(?: \[recovered\])?\n`).FindAllStringSubmatch(strings.SplitN(out, "goroutine ", 2)[0], -1)
+		re := regexp.MustCompile(`VERIF-ASSERT-FAILED: (.*?)(?: \[recovered\])?\n`)
+		ms := re.FindAllStringSubmatch(strings.SplitN(out, "goroutine ", 2)[0], -1)
+		if len(ms) == 0 {
+			// (under -race the panic message may follow the first goroutine header)
+			ms = re.FindAllStringSubmatch(out, 1)
+		}
+		if len(ms) == 0 {
+			return "assert:?", out
+		}
 		return "assert:" + strings.TrimSpace(ms[len(ms)-1][1]), out
 	case strings.Contains(out, "WARNING: DATA RACE"):
 		return "race", out
+	case strings.Contains(out, "panic: test timed out after "+replayDeadline):
+		return "no-return", out
 	case strings.Contains(out, "panic:"):
 		return "panic", out
 	case strings.Contains(out, "--- PASS"):
@@ -198,8 +208,14 @@ func repoIsRecordedTree() bool {
 	return strings.TrimSpace(string(tree)) == strings.TrimSpace(string(rec))
 }
 
+// replayDeadline: how long a native replay may run inside the test binary (a replay of a path
+// that ended takes well under a second; "no-return" is reported for one that passes this deadline).
+const replayDeadline = "2m0s"
+
 func outcomeConfirms(kind, tag, outcome string) bool {
 	switch kind {
+	case "nonterm":
+		return outcome == "no-return"
 	case "assert":
 		if outcome == "assert:"+tag {
 			return true
@@ -598,7 +614,12 @@ func cmdCheck(args []string) {
 		}
 		if j.known == nil {
 			perGroup[j.group]++
-			if perGroup[j.group] > 3 {
+			limit := 3
+			if f.Kind == "nonterm" {
+				// each replay runs to the deadline
+				limit = 1
+			}
+			if perGroup[j.group] > limit {
 				j.skipped = true
 			}
 		} else {
